@@ -159,7 +159,7 @@ def clocks(d, refi, n, p, rnd):
 # ------------------------------------------------------------------------------------------------ scenarios
 TIERS = {
     "quick":    dict(gstep=10000, bpcap=6, nscen=14, rates="valid", spdstep=20000, spdgroups=2, spdvar=3),
-    "thorough": dict(gstep=1000, bpcap=0, nscen=96, rates="all", spdstep=500, spdgroups=10, spdvar=24),
+    "thorough": dict(gstep=2000, bpcap=0, nscen=96, rates="all", spdstep=2000, spdgroups=10, spdvar=8),
 }
 
 
@@ -350,7 +350,7 @@ def execute(sc, workdir):
 
 def models(tier, seed):
     # Lemma check of the arithmetic R_TimingConv evaluates (two-limb form == BigNat reference; least-c characterisation)
-    return [dict(module="MC_TimingConv", cfg="MC_TimingConv_%s.cfg" % tier, workers=1, timeout=900, label="arith-lemma-" + tier, xmx="2g"),
+    return [dict(module="MC_TimingConv", cfg="MC_TimingConv_%s.cfg" % tier, workers=1, timeout=2400, label="arith-lemma-" + tier, xmx="2g"),
             dict(module="MC_TimingConv", cfg="MC_TimingConv_neg.cfg", workers=1, timeout=300, label="arith-lemma-negative-control",
                  expect_violation=True, xmx="2g")]
 
